@@ -322,6 +322,14 @@ func (e *endpointManager) checkStatus() {
 
 func (e *endpointManager) addAliveEp(ep endpoint.Endpoint) {
 	e.epLock.Lock()
+	// ep describes the endpoint as it was when its adapter was created; the registry may have
+	// changed its weight while it was out of rotation, so take the current description
+	for i := range e.activeEpf {
+		if cur := endpoint.Tars2endpoint(e.activeEpf[i]); cur.Key == ep.Key {
+			ep = cur
+			break
+		}
+	}
 	sortedEps := e.activeEp[:]
 	sortedEps = append(sortedEps, ep)
 	sort.Slice(sortedEps, func(i int, j int) bool {
